@@ -15,6 +15,14 @@
                  variable states x every present / empty-valued / absent assignment of its keys;
                  plus (InitKind) candidates that EXIST BUT ARE NOT READABLE FILES (directories): every file / directory
                  assignment of the existing candidates (1, 2 or 3 of them) with at least one directory.
+                 plus (InitLinks / InitUnreadable / InitStoreObj) WHAT KIND OF FILE-SYSTEM OBJECT stands at each path: the first
+                 existing candidate a regular file or a symbolic link to a file kept in another directory, its directory
+                 real or reached through a link, a dangling link / a link loop at an earlier candidate path, x a relative
+                 location that exists next to the candidate, next to the link's target, next to both, nowhere, next to
+                 another candidate, in the working directory x every spelling ("./", "../", nested) - and absolute ones;
+                 candidates that are links to directories / sockets; store locations (given and default) that are
+                 directories, links to directories, regular files, and missing ones that are dangling links; the
+                 working directory entered through a link.
    Mode "face":  transport URIs over all supported and some unsupported schemes, hosts, ports. *)
 EXTENDS ClientConf
 CONSTANTS Mode, Thorough
@@ -38,16 +46,23 @@ BodyFns(E, k) ==
   ELSE LET f1 == MinOf(E) IN
        {[i \in 1..4 |-> IF i = f1 THEN b ELSE "plain"] : b \in BodiesAllowed(k[f1])}
 AllFiles == [i \in 1..4 |-> "file"]
-CfgK(E, kd, k, b, e, l, d, v) == [n |-> 4, exist |-> E, kind |-> kd, key |-> k, body |-> b, env |-> e, loc |-> l, defx |-> d, val |-> v]
+\* fso = the file-system-object fields (see ClientConf); PlainFso = every object the ordinary one
+Fso(g, cd, w, so, sm, rl) == [ghost |-> g, cdir |-> cd, cwd |-> w, sobj |-> so, smiss |-> sm, rel |-> rl]
+PlainFso == Fso([i \in 1..4 |-> "none"], [i \in 1..4 |-> "plain"], "plain", [s \in Stores |-> "dir"], [s \in Stores |-> "absent"],
+                [s \in Stores |-> "std"])
+CfgF(E, kd, k, b, e, l, d, v, o) == [n |-> 4, exist |-> E, kind |-> kd, key |-> k, body |-> b, env |-> e, loc |-> l, defx |-> d, val |-> v,
+                                     ghost |-> o.ghost, cdir |-> o.cdir, cwd |-> o.cwd, sobj |-> o.sobj, smiss |-> o.smiss, rel |-> o.rel]
+CfgK(E, kd, k, b, e, l, d, v) == CfgF(E, kd, k, b, e, l, d, v, PlainFso)
+LocClassesBase == LocClasses \ {"relT", "relB"}      \* with regular files only, relT is relM and relB is relE
 CfgV(E, k, b, e, l, d, v) == CfgK(E, AllFiles, k, b, e, l, d, v)
 CfgB(E, k, b, e, l, d) == CfgV(E, k, b, e, l, d, "plain")
 \* (the product is enumerated by TLC through the quantifiers of Init; building it as one set value first
 \*  made TLC spend minutes normalising a set of 7*10^4 large records)
 InitDiagonal == \E E \in Patterns : \E k \in KeyFns(E) : \E b \in BodyFns(E, k) : \E e \in [Settings -> {"unset", "set"}] :
-                  \E lc \in LocClasses : \E dx \in DefLists :
+                  \E lc \in LocClassesBase : \E dx \in DefLists :
                     x = CfgB(E, k, b, e, [s \in Stores |-> lc], [s \in Stores |-> dx])
 InitCross == \E E \in {{}, {2}} : \E ks \in KeyStates \ {"emptyval"} : \E b \in BOOLEAN :
-               \E l \in [Stores -> LocClasses] : \E d \in [Stores -> DefLists] :
+               \E l \in [Stores -> LocClassesBase] : \E d \in [Stores -> DefLists] :
                  x = CfgB(E, [i \in 1..4 |-> IF i \in E THEN All(ks) ELSE All("absent")], [i \in 1..4 |-> "plain"],
                           All(IF b THEN "set" ELSE "unset"), l, d)
 
@@ -73,7 +88,7 @@ InitEmpty == \E E \in Patterns : \E p \in EmptyPairs : \E k2 \in {All("absent"),
 \* file sets every key (so that using it instead shows)
 PatternsK == (Patterns \ {{}}) \cup {{1, 2}, {1, 2, 3}} \cup (IF Thorough THEN {{2, 3, 4}, {1, 3, 4}} ELSE {})
 KindEnvs == {All("set"), All("unset"), All("empty"), [s \in Settings |-> IF s = "pib" THEN "set" ELSE "unset"]}
-InitKind == \E E \in PatternsK : \E kd \in [E -> CandKinds] : \E k1 \in {"present", "absent", "commented"} :
+InitKind == \E E \in PatternsK : \E kd \in [E -> {"file", "dir"}] : \E k1 \in {"present", "absent", "commented"} :
               \E e \in KindEnvs : \E lc \in EmptyLocs : \E dx \in DefLists :
                 /\ \E i \in E : kd[i] = "dir"
                 /\ (kd[MinOf(E)] = "dir" => k1 = "absent")
@@ -81,6 +96,46 @@ InitKind == \E E \in PatternsK : \E kd \in [E -> CandKinds] : \E k1 \in {"presen
                           [i \in 1..4 |-> IF i \in E /\ kd[i] = "file" THEN (IF i = MinOf(E) THEN All(k1) ELSE All("present"))
                                           ELSE All("absent")],
                           [i \in 1..4 |-> "plain"], e, [s \in Stores |-> lc], [s \in Stores |-> dx], "plain")
+\* ---- what kind of file-system object stands at each path
+\* who gives the store values: the first existing file, the environment (file silent), the environment over the file
+FsoSources == {<<All("present"), All("unset")>>, <<All("absent"), All("set")>>} \cup
+              (IF Thorough THEN {<<All("present"), All("set")>>, <<All("present"), [s \in Settings |-> IF s = "pib" THEN "set" ELSE "unset"]>>} ELSE {})
+\* (first existing candidate f, existing set, ghost of the candidates before f)
+FsoPatterns == {<<{1}, "none">>, <<{2, 4}, "none">>, <<{2, 4}, "dangling">>, <<{2, 4}, "loop">>}
+               \cup (IF Thorough THEN {<<{3}, "dangling">>, <<{3}, "loop">>, <<{2, 3}, "dangling">>} ELSE {})
+\* location class x spelling: the spelling only exists for relative locations
+LocShapes == {<<lc, "std">> : lc \in {"none", "absE", "absM"}} \cup (RelClasses \X RelShapes)
+KeysF(E, k1) == [i \in 1..4 |-> IF i = MinOf(E) THEN k1 ELSE IF i \in E THEN All("present") ELSE All("absent")]
+GhostF(E, g) == [i \in 1..4 |-> IF i < MinOf(E) THEN g ELSE "none"]
+InitLinks == \E p \in FsoPatterns : \E k1 \in {"file", "link"} : \E k2 \in (IF Thorough THEN {"file", "link"} ELSE {"file"}) :
+             \E cd \in {"plain", "link"} : \E src \in FsoSources : \E ls \in LocShapes : \E dx \in DefLists :
+               LET E == p[1]  f == MinOf(E) IN
+               x = CfgF(E, [i \in 1..4 |-> IF i = f THEN k1 ELSE k2], KeysF(E, src[1]), [i \in 1..4 |-> "plain"], src[2],
+                        [s \in Stores |-> ls[1]], [s \in Stores |-> dx], "plain",
+                        Fso(GhostF(E, p[2]), [i \in 1..4 |-> IF i = f THEN cd ELSE "plain"], "plain",
+                            [s \in Stores |-> "dir"], [s \in Stores |-> "absent"], [s \in Stores |-> ls[2]]))
+\* every object that exists and cannot be read, directly or behind a ghost, whatever comes after it
+InitUnreadable == \E p \in FsoPatterns : \E k1 \in CandKinds \ ReadableKinds : \E k2 \in {"file", "link"} : \E cd \in {"plain", "link"} :
+                  \E e \in {All("unset"), All("set")} : \E lc \in {"absE", "relE"} : \E dx \in DefLists :
+                    LET E == p[1]  f == MinOf(E) IN
+                    x = CfgF(E, [i \in 1..4 |-> IF i = f THEN k1 ELSE k2], KeysF(E, All("absent")), [i \in 1..4 |-> "plain"], e,
+                             [s \in Stores |-> lc], [s \in Stores |-> dx], "plain",
+                             Fso(GhostF(E, p[2]), [i \in 1..4 |-> IF i = f THEN cd ELSE "plain"], "plain",
+                                 [s \in Stores |-> "dir"], [s \in Stores |-> "absent"], [s \in Stores |-> "std"]))
+\* what the store locations are (given ones and default ones), and how the working directory was entered
+StoreObjLocs == {"none", "absE", "absM", "relE", "relM", "relCwd", "relB", "relT"}
+InitStoreObj == \E E \in {{}, {1}} : \E k1 \in {"file", "link"} : \E src \in FsoSources : \E lc \in StoreObjLocs :
+                \E so \in (IF Thorough THEN [Stores -> StoreObjs] ELSE {[s \in Stores |-> o] : o \in StoreObjs}) :
+                \E sm \in (IF Thorough THEN [Stores -> {"absent", "dangling"}] ELSE {[s \in Stores |-> m] : m \in {"absent", "dangling"}}) :
+                \E dx \in DefLists : \E w \in {"plain", "link"} : \E rl \in {"std", "dotdot"} :
+                  /\ (E = {} => (k1 = "file" /\ src[1] = All("absent")))
+                  /\ (lc \notin RelClasses => rl = "std")
+                  /\ (so = [s \in Stores |-> "dir"] /\ sm = [s \in Stores |-> "absent"] => w = "link")      \* (the rest is in InitLinks)
+                  /\ x = CfgF(E, [i \in 1..4 |-> IF i \in E THEN k1 ELSE "file"],
+                             [i \in 1..4 |-> IF i \in E THEN src[1] ELSE All("absent")], [i \in 1..4 |-> "plain"], src[2],
+                             [s \in Stores |-> lc], [s \in Stores |-> dx], "plain",
+                             Fso([i \in 1..4 |-> "none"], [i \in 1..4 |-> "plain"], w, so, sm, [s \in Stores |-> rl]))
+InitFso == InitLinks \/ InitUnreadable \/ InitStoreObj
 Plats == [new : BOOLEAN, old : BOOLEAN, sys : {"linux", "freebsd"}]
 
 \* supported, unsupported, and near misses of the supported ones
@@ -91,7 +146,7 @@ Uris == {Uri(sc, a, p, "") : sc \in Schemes \ {"unix", ""}, a \in {"h", "127.0.0
         \cup {Uri("", "", 0, "")}
 
 \* Mode = "conf" | "face" | "both" (one TLC run for the two domains)
-Init == \/ Mode \in {"conf", "both"} /\ kind = "conf" /\ (InitDiagonal \/ InitCross \/ InitVal \/ InitEmpty \/ InitKind) /\ out = Resolve(x)
+Init == \/ Mode \in {"conf", "both"} /\ kind = "conf" /\ (InitDiagonal \/ InitCross \/ InitVal \/ InitEmpty \/ InitKind \/ InitFso) /\ out = Resolve(x)
         \/ Mode \in {"conf", "both"} /\ kind = "plat" /\ x \in Plats /\ out = PlatOf(x)
         \/ Mode \in {"face", "both"} /\ kind = "face" /\ x \in Uris /\ out = FaceOf(x)
 Next == UNCHANGED <<kind, x, out>>
@@ -108,6 +163,7 @@ I_Content     == Ok => P_ContentClassIrrelevant(x, out)
 I_Values      == Ok => (P_ValueAlphabetIrrelevant(x, out) /\ P_ForeignTpmRefused(x, out))
 I_Empty       == Ok => P_EmptyRefusedNotReplaced(x, out)
 I_Unreadable  == kind = "conf" => P_UnreadableRefused(x, out)
+I_Objects     == kind = "conf" => P_ObjectKindIrrelevant(x, out)
 I_Plat        == kind = "plat" => /\ (x.sys = "linux" => out.cls = "Linux")
                                   /\ (x.sys = "freebsd" => out.cls = "err")
                                   /\ (out.cls = "Linux" => out.transport = IF x.old /\ ~x.new THEN "unix:///run/nfd.sock"
@@ -133,6 +189,12 @@ Witnesses ==
           /\ \E p \in EmptyPairs : p[1]["tpm"] = "empty" /\ p[2]["tpm"] = "emptyval"
           \* a directory first with a regular file after it; a regular file first with a directory after it
           /\ \E E \in PatternsK : Cardinality(E) >= 2
+          \* the first existing candidate is a link to a file elsewhere and a relative location exists next to the link only /
+          \* next to the target only / next to both; the same behind a dangling candidate; a candidate directory behind a link
+          /\ \A lc \in {"relE", "relT", "relB"} : \E ls \in LocShapes : ls[1] = lc /\ ls[2] = "dotdot"
+          /\ \E p \in FsoPatterns : p[2] = "dangling" /\ Cardinality(p[1]) = 2
+          /\ \E src \in FsoSources : src[1] = All("absent") /\ src[2] = All("set")
+          /\ {"link", "file"} \subseteq StoreObjs /\ {"linkdir", "sock"} \subseteq CandKinds \ ReadableKinds
           /\ "relE" \in LocClasses /\ "absM" \in LocClasses /\ <<FALSE>> \in DefLists /\ <<TRUE>> \in DefLists
   /\ (Mode \in {"face", "both"}) =>
           /\ \E u \in Uris : u.port = 0 /\ FaceOf(u).k = "udp"
